@@ -161,11 +161,25 @@ class ExtTaskPool(TaskPool):
     def _hidden(self) -> None:
         """Not public."""
 
+    def undocumented(self, prefix: str = "snap") -> str:
+        return prefix + str(self.num_running)
+
+    @property
+    def undocumented_prop(self) -> int:
+        return 7
+
+    def with_h_option(self, item: int, hint: str = "", verbose: bool = False) -> str:
+        """A method whose optional parameter starts with the letter of the help flag."""
+        return f"{item}:{hint}:{verbose}"
+
 
 class ExtSimpleTaskPool(SimpleTaskPool):
     def extra_method(self, count: int = 1) -> int:
         """Returns the given number plus the number of running tasks."""
         return count + self.num_running
+
+    def snapshot(self, prefix: str = "snap", *more: str) -> str:
+        return prefix + "".join(more)
 
     @property
     def extra_readonly(self) -> str:
